@@ -263,18 +263,24 @@ class SArr:
             return
         # slice assignment  a[lo:hi] = scalar or array   (1 sliced axis, others full/int)
         sub = self[key]       # a view describing which elements are hit -- we need the inverse map: do common cases
-        if self.ndim == 1 and isinstance(key[0], slice):
+        if len(key) == 1 and isinstance(key[0], slice):
+            # a[lo:hi:step] = v   (first axis sliced, trailing axes whole)
             lo, step, ln = self._slice(key[0], self.shape[0])
             old = self._fn
             if isinstance(val, SArr):
-                if _dim_eq(val.shape[0], ln) is not True:
-                    ctx().oblige("safety:shape-slice-assign", _dim_eq(val.shape[0], ln), kind="safety")
+                e_ = _dim_eq(val.shape[0], ln)
+                if e_ is False:
+                    raise PathRaise("ValueError: could not broadcast input array into shape")
+                if e_ is not True:
+                    ctx().oblige("safety:shape-slice-assign (number of rows on both sides)", e_, kind="safety")
+                if val.ndim != self.ndim:
+                    raise Undecided("slice assignment with different ranks")
 
                 def fn(j, old=old):
                     i = j[0]
                     inr = land(lift(i) >= lo, lift(i) < lift(lo) + lift(ln) * step) if step == 1 else \
                         land(lift(i) >= lo, lift(i) < lift(lo) + lift(ln) * step, (lift(i) - lo) % step == 0)
-                    return ite(inr, val.get(((lift(i) - lo) // step if step != 1 else lift(i) - lo,)), old(j))
+                    return ite(inr, val.get(((lift(i) - lo) // step if step != 1 else lift(i) - lo,) + tuple(j[1:])), old(j))
             else:
                 def fn(j, old=old):
                     i = j[0]
